@@ -3,6 +3,7 @@
 mod bridge;
 mod c03;
 mod c04;
+mod c05;
 mod c12;
 mod engine;
 mod refdiff;
@@ -12,6 +13,23 @@ mod simdir;
 mod simio;
 
 use engine::{Engine, Opts, Tier};
+
+// The two binary-crate modules a property anchors are compiled from /repo's working tree into the harness.
+// They name these items through `crate::`.
+#[allow(dead_code)]
+pub struct Official;
+#[allow(dead_code)]
+pub struct Intermediary;
+#[allow(dead_code)]
+pub struct Named;
+#[allow(dead_code, unused)]
+mod download {
+    #[path = "/repo/src/download/versions_manifest.rs"]
+    pub mod versions_manifest;
+}
+#[allow(dead_code, unused, deprecated, clippy::all)]
+#[path = "/repo/src/version_graph.rs"]
+mod version_graph;
 
 pub const DEFAULT_SEED: u64 = 20260929;
 
@@ -62,6 +80,7 @@ fn dispatch(a: &Args, digest_only: bool) -> i32 {
     match a.id.as_str() {
         "C03" => drive(&c03::C03, a, digest_only),
         "C04" => drive(&c04::C04, a, digest_only),
+        "C05" => drive(&c05::C05, a, digest_only),
         "C12" => drive(&c12::C12, a, digest_only),
         other => {
             eprintln!("harness error: no engine for {other}");
